@@ -618,6 +618,25 @@ def mon_exn_lock(case, lines):
     return None
 
 
+COUNTER_MAX = 2147483647     # = CowModel.COUNTER_MAX: the reader counters are (at least) int
+
+
+def mon_counter_width(case, lines):
+    """the two reader counters of the inner lr_guarded must not be able to wrap for any realistic number of threads:
+       the model (and every theorem: ctr = number of registered threads) takes them as unbounded, the code's are int.
+       A counter of b bits is 0 again with 2^b readers registered at the same moment: the commit then stops waiting for
+       them, overwrites the shared_ptr object they are copying and may destroy the version under them"""
+    fin = [l[1:] for l in lines if len(l) >= 1 and l[0] == -2]
+    if len(fin) < 2 or len(fin[1]) < 2:
+        return None
+    for name, mx in zip(('left', 'right'), fin[1][:2]):
+        if mx < COUNTER_MAX:
+            return ('the %s reader counter of the inner lr_guarded holds values up to %d only: %d threads registered at '
+                    'the same moment (inside lock_shared / lock()) wrap it to 0, a release then does not wait for them '
+                    '(cow_inner_exclusion, cow_snapshot_valid assume a counter at least as wide as int)' % (name, mx, mx + 1))
+    return None
+
+
 def mon_seq_cst(case, lines):
     """every atomic operation of the library is seq_cst (C07 layer 2)"""
     for i, l in enumerate(lines):
@@ -637,4 +656,4 @@ def mon_new_reader_delays_writer(case, lines):
 MONITORS = {'new_reader_delays_writer': mon_new_reader_delays_writer, 'fault': mon_fault, 'snapshot_stable': mon_snapshot_stable, 'snapshot_committed': mon_snapshot_committed,
             'base_latest': mon_base_latest, 'writers_serial': mon_writers_serial, 'publish_atomic': mon_publish_atomic,
             'no_lost_update': mon_no_lost_update, 'ledger': mon_ledger, 'read_no_mutex': mon_read_no_mutex,
-            'progress': mon_progress, 'cancel': mon_cancel, 'exn_lock': mon_exn_lock, 'seq_cst': mon_seq_cst}
+            'progress': mon_progress, 'cancel': mon_cancel, 'exn_lock': mon_exn_lock, 'seq_cst': mon_seq_cst, 'counter_width': mon_counter_width}
